@@ -388,6 +388,16 @@ def r4_r5_locks(chk, fx):
     # then blocks on the transport although its reply is in the table.
     gm = b.calls_to("HashMap::<K, V, S, A>::get_mut", "HashMap::<K, V, S>::get_mut", user_only=True)
     own = [g for g in gm if b.derives_from_var(F.op_base(g.args[1]), "message_id")]
+    # .. or in a private helper that is handed the (locked) table and the caller's own id
+    for c in b.calls():
+        hb = None if c.macro else (fx.mir.get(c.rdef) or fx.mir.get(c.defn))
+        if hb is None or hb.crate != "netconf" or hb is b or "::tests::" in hb.name:
+            continue
+        if not hb.calls_to("HashMap::<K, V, S, A>::get_mut", "HashMap::<K, V, S>::get_mut", user_only=True):
+            continue
+        if any(F.op_base(a) is not None and b.derives_from_var(F.op_base(a), "message_id") for a in c.args) and \
+                any("OutstandingRequest" in hb.local_ty(i) for i in range(1, hb.raw["arg_count"] + 1)):
+            own.append(c)
     chk.floor("C05/R5 own-slot lookups", len(own), 1)
     for g in own:
         held = held_guards(b, init_in[g.bb])
